@@ -5,7 +5,8 @@
 From Coq Require Import ZArith List Bool Permutation Reals QArith Qabs Sorting.Sorted Floats.
 From Flocq Require Import Core.
 From Flocq Require Raux.
-From SID Require Import Base F64 SetOps SetMore AShiftR Comb Vec Quat VecF VecExact OrdMax PointLaws FloatId MatCtor GenC20.
+From SIDGen Require GeneratedF GeneratedFS.
+From SID Require Import Base F64 SetOps SetMore AShiftR Comb Vec Quat VecF VecExact OrdMax PointLaws FloatId MatCtor GenEqFSTac GenEqFSCommon GenEqFSR3 GenEqFSVector GenEqFSMatrix GenEqFSPoint GenEqFSLine GenEqFSQuat GenC20.
 Import ListNotations.
 
 (* ================= set helpers: for every element type whose == is Leibniz equality (hypothesis eqb_spec) and EVERY map iteration order.
@@ -504,6 +505,115 @@ Proof. exact minima_generated_both. Qed.
 Print Assumptions C20_generated_Minima_is_the_model_threshold.
 Close Scope R_scope.
 
+(* ================= the float64 helpers as REGENERATED from the Go source (generated/GeneratedFS.v, struct values as tuples; vt / mt read a
+   tuple as the model's record; math.Hypot/Sin/Cos are fields of GeneratedF.libm). The main binary64 results above, restated over the
+   generated definitions through GenEqFSpatial.gen_*_eq: an edit of one of these Go functions changes GeneratedFS.v and breaks the theorem.
+   Not regenerated (slices of pointers / range loops), hence tied by the differential run only: UniqueAppend, MaxPoint, MinPoint. ================= *)
+Open Scope R_scope.
+Theorem C20_generated_line_start_is_the_start_point : forall p q, GeneratedFS.Line3_Start (GeneratedFS.NewLineFromPoints p q) = p.
+Proof. exact gen_line_start. Qed.
+Print Assumptions C20_generated_line_start_is_the_start_point.
+Theorem C20_generated_line_parameter_0_gives_the_start_point : forall p d, finv (vt p) -> finv (vt d) ->
+  veqR (vt (GeneratedFS.Line3_ToPoint (p, d) 0%float)) (vt p).
+Proof. exact gen_line_to_point_0. Qed.
+Print Assumptions C20_generated_line_parameter_0_gives_the_start_point.
+Theorem C20_generated_line_parameter_1_error_bound : forall p q, finv (vt p) -> finv (vt q) ->
+  (Rabs (round radix2 (SpecFloat.fexp FloatOps.prec FloatOps.emax) ZnearestE (rv (fx (vt q)) - rv (fx (vt p)))) < bpow radix2 FloatOps.emax /\
+   Rabs (round radix2 (SpecFloat.fexp FloatOps.prec FloatOps.emax) ZnearestE (rv (fx (vt p)) + round radix2 (SpecFloat.fexp FloatOps.prec FloatOps.emax) ZnearestE (rv (fx (vt q)) - rv (fx (vt p))))) < bpow radix2 FloatOps.emax) ->
+  (Rabs (round radix2 (SpecFloat.fexp FloatOps.prec FloatOps.emax) ZnearestE (rv (fy (vt q)) - rv (fy (vt p)))) < bpow radix2 FloatOps.emax /\
+   Rabs (round radix2 (SpecFloat.fexp FloatOps.prec FloatOps.emax) ZnearestE (rv (fy (vt p)) + round radix2 (SpecFloat.fexp FloatOps.prec FloatOps.emax) ZnearestE (rv (fy (vt q)) - rv (fy (vt p))))) < bpow radix2 FloatOps.emax) ->
+  (Rabs (round radix2 (SpecFloat.fexp FloatOps.prec FloatOps.emax) ZnearestE (rv (fz (vt q)) - rv (fz (vt p)))) < bpow radix2 FloatOps.emax /\
+   Rabs (round radix2 (SpecFloat.fexp FloatOps.prec FloatOps.emax) ZnearestE (rv (fz (vt p)) + round radix2 (SpecFloat.fexp FloatOps.prec FloatOps.emax) ZnearestE (rv (fz (vt q)) - rv (fz (vt p))))) < bpow radix2 FloatOps.emax) ->
+  let r := vt (GeneratedFS.Line3_ToPoint (GeneratedFS.NewLineFromPoints p q) 1%float) in
+  finv r /\
+  Rabs (rv (fx r) - rv (fx (vt q))) <= bpow radix2 (-51) * (Rabs (rv (fx (vt p))) + Rabs (rv (fx (vt q)))) /\
+  Rabs (rv (fy r) - rv (fy (vt q))) <= bpow radix2 (-51) * (Rabs (rv (fy (vt p))) + Rabs (rv (fy (vt q)))) /\
+  Rabs (rv (fz r) - rv (fz (vt q))) <= bpow radix2 (-51) * (Rabs (rv (fz (vt p))) + Rabs (rv (fz (vt q)))).
+Proof. exact gen_line_to_point_1. Qed.
+Print Assumptions C20_generated_line_parameter_1_error_bound.
+Theorem C20_generated_line_point_is_exact_on_integers : forall p q t mp mq mt', ibv K (vt p) mp -> ibv K (vt q) mq -> ib K t mt' ->
+  exists B, ibv B (vt (GeneratedFS.Line3_ToPoint (GeneratedFS.NewLineFromPoints p q) t)) (zadd mp (zscale mt' (zsub mq mp))).
+Proof. exact gen_line_exact_on_integers. Qed.
+Print Assumptions C20_generated_line_point_is_exact_on_integers.
+Theorem C20_generated_unit_matrix_is_neutral : forall a, finm (mt a) ->
+  meqR (mt (GeneratedFS.Matrix3_Mul GeneratedFS.NewUnitMatrix3 a)) (mt a) /\ meqR (mt (GeneratedFS.Matrix3_Mul a GeneratedFS.NewUnitMatrix3)) (mt a).
+Proof. exact gen_unit_matrix_neutral. Qed.
+Print Assumptions C20_generated_unit_matrix_is_neutral.
+Theorem C20_generated_unit_matrix_fixes_vectors : forall v, finv (vt v) ->
+  veqR (vt (GeneratedFS.Matrix3_MulVec GeneratedFS.NewUnitMatrix3 v)) (vt v).
+Proof. exact gen_unit_matrix_fixes_vectors. Qed.
+Print Assumptions C20_generated_unit_matrix_fixes_vectors.
+Theorem C20_generated_new_matrix3_is_row_major_and_maps_basis_to_columns : forall a b c d e f g h i, finm (FM a b c d e f g h i) ->
+  GeneratedFS.NewMatrix3 a b c d e f g h i = ((a, b, c), (d, e, f), (g, h, i)) /\
+  veqR (vt (GeneratedFS.Matrix3_MulVec (GeneratedFS.NewMatrix3 a b c d e f g h i) (1, 0, 0)%float)) (FV a d g) /\
+  veqR (vt (GeneratedFS.Matrix3_MulVec (GeneratedFS.NewMatrix3 a b c d e f g h i) (0, 1, 0)%float)) (FV b e h) /\
+  veqR (vt (GeneratedFS.Matrix3_MulVec (GeneratedFS.NewMatrix3 a b c d e f g h i) (0, 0, 1)%float)) (FV c f i).
+Proof. exact gen_new_matrix3_basis. Qed.
+Print Assumptions C20_generated_new_matrix3_is_row_major_and_maps_basis_to_columns.
+Theorem C20_generated_matrix_product_is_associative_on_integers : forall a b c ma mb mc, ibm K (mt a) ma -> ibm K (mt b) mb -> ibm K (mt c) mc ->
+  exists B, ibm B (mt (GeneratedFS.Matrix3_Mul (GeneratedFS.Matrix3_Mul a b) c)) (zmmul (zmmul ma mb) mc) /\
+            ibm B (mt (GeneratedFS.Matrix3_Mul a (GeneratedFS.Matrix3_Mul b c))) (zmmul (zmmul ma mb) mc).
+Proof. exact gen_matrix_product_associative_on_integers. Qed.
+Print Assumptions C20_generated_matrix_product_is_associative_on_integers.
+Theorem C20_generated_matrix_product_agrees_with_application_on_integers : forall a b v ma mb mv,
+  ibm K (mt a) ma -> ibm K (mt b) mb -> ibv K (vt v) mv ->
+  exists B, ibv B (vt (GeneratedFS.Matrix3_MulVec (GeneratedFS.Matrix3_Mul a b) v)) (zmulvec (zmmul ma mb) mv) /\
+            ibv B (vt (GeneratedFS.Matrix3_MulVec a (GeneratedFS.Matrix3_MulVec b v))) (zmulvec (zmmul ma mb) mv).
+Proof. exact gen_matrix_product_agrees_with_application_on_integers. Qed.
+Print Assumptions C20_generated_matrix_product_agrees_with_application_on_integers.
+Theorem C20_generated_dot_and_cross_are_exact_and_perpendicular_on_integers : forall a b ma mb, ibv K (vt a) ma -> ibv K (vt b) mb ->
+  ib (3 * (K * K)) (GeneratedFS.Vector3_Dot a b) (zdot ma mb) /\ ibv (2 * (K * K)) (vt (GeneratedFS.Vector3_Cross a b)) (zcross ma mb) /\
+  is_int (GeneratedFS.Vector3_Dot a (GeneratedFS.Vector3_Cross a b)) 0 /\ is_int (GeneratedFS.Vector3_Dot b (GeneratedFS.Vector3_Cross a b)) 0.
+Proof. exact gen_dot_cross_exact_on_integers. Qed.
+Print Assumptions C20_generated_dot_and_cross_are_exact_and_perpendicular_on_integers.
+Theorem C20_generated_l1norm_is_exact_on_integers : forall a ma, ibv K (vt a) ma ->
+  is_int (GeneratedFS.Vector3_L1Norm a) (Z.abs (zx ma) + Z.abs (zy ma) + Z.abs (zz ma)).
+Proof. exact gen_l1norm_exact_on_integers. Qed.
+Print Assumptions C20_generated_l1norm_is_exact_on_integers.
+Theorem C20_generated_almost_equal_value : forall x y tol, fin x -> fin y -> fin tol ->
+  Rabs (round radix2 (SpecFloat.fexp FloatOps.prec FloatOps.emax) ZnearestE (rv x - rv y)) < bpow radix2 FloatOps.emax ->
+  (GeneratedFS.AlmostEqual x y tol = true <->
+   rv x = rv y \/ Rabs (round radix2 (SpecFloat.fexp FloatOps.prec FloatOps.emax) ZnearestE (rv x - rv y)) <= rv tol).
+Proof. exact gen_almost_equal_value. Qed.
+Print Assumptions C20_generated_almost_equal_value.
+Theorem C20_generated_almost_equal_accepts_every_pair_within_tolerance : forall x y tol, fin x -> fin y -> fin tol ->
+  Rabs (round radix2 (SpecFloat.fexp FloatOps.prec FloatOps.emax) ZnearestE (rv x - rv y)) < bpow radix2 FloatOps.emax ->
+  Rabs (rv x - rv y) <= rv tol -> GeneratedFS.AlmostEqual x y tol = true.
+Proof. exact gen_almost_equal_complete. Qed.
+Print Assumptions C20_generated_almost_equal_accepts_every_pair_within_tolerance.
+Theorem C20_generated_almost_equal_is_reflexive_and_symmetric : forall x y tol, fin x -> fin y -> fin tol ->
+  Rabs (round radix2 (SpecFloat.fexp FloatOps.prec FloatOps.emax) ZnearestE (rv x - rv y)) < bpow radix2 FloatOps.emax ->
+  GeneratedFS.AlmostEqual x x tol = true /\ GeneratedFS.AlmostEqual x y tol = GeneratedFS.AlmostEqual y x tol.
+Proof. exact gen_almost_equal_refl_sym. Qed.
+Print Assumptions C20_generated_almost_equal_is_reflexive_and_symmetric.
+Theorem C20_generated_is_close_is_reflexive : forall p eps, finv (vt p) -> GeneratedFS.Point3_IsClose p p eps = true.
+Proof. exact gen_is_close_refl. Qed.
+Print Assumptions C20_generated_is_close_is_reflexive.
+(* RotateBetweenVector as regenerated: it is the model (branching on the regenerated threshold), for every math library M ... *)
+Theorem C20_generated_rotation_is_the_model : forall M a b,
+  GeneratedFS.RotateBetweenVector M a b =
+  tq (frotate_between (GeneratedF.m_hypot M) (GeneratedF.m_sin M) (GeneratedF.m_cos M) (vt a) (vt b)).
+Proof. exact gen_rotate_branches. Qed.
+Print Assumptions C20_generated_rotation_is_the_model.
+(* ... and, evaluated (vm_compute) with the concrete library GenC20.libm0 (naive Hypot; Sin/Cos = Go's values at pi/2), the run-time judges of
+   DC20.d_rotate give on its own output (law holds, fallback branch taken, half turn a -> -a verified, direction + loose norm verified,
+   exactly opposite, unit norm):  the two recorded defects ... *)
+Theorem C20_generated_rotation_half_turn_witness :
+  rot_verdicts libm0 (1, 0, 0)%float (-1, 0x1.0c6f7a0b5ed8dp-20, 0)%float = Some (false, true, true, false, false, true).
+Proof. exact gen_rotate_half_turn_witness. Qed.
+Print Assumptions C20_generated_rotation_half_turn_witness.
+Theorem C20_generated_rotation_cancellation_witness :
+  rot_verdicts libm0 (1, 0, 0)%float (-1, 0x1.f75104d551d69p-16, 0)%float = Some (false, false, false, true, false, false).
+Proof. exact gen_rotate_cancellation_witness. Qed.
+Print Assumptions C20_generated_rotation_cancellation_witness.
+(* ... and the law on exactly opposite vectors along -z/+z (second fallback axis) and on a generic pair *)
+Theorem C20_generated_rotation_opposite_and_generic_pairs_obey_the_law :
+  rot_verdicts libm0 (0, 0, -2)%float (0, 0, 3)%float = Some (true, true, true, true, true, true) /\
+  rot_verdicts libm0 (1, 2, 2)%float (2, -1, 2)%float = Some (true, false, false, true, false, true).
+Proof. exact gen_rotate_opposite_and_generic_ok. Qed.
+Print Assumptions C20_generated_rotation_opposite_and_generic_pairs_obey_the_law.
+Close Scope R_scope.
+
 (* ================= non-vacuity ================= *)
 Close Scope Q_scope.
 Close Scope R_scope.
@@ -539,3 +649,6 @@ Example C20_nonvacuous_new_matrix3 :
   (mulvec (new_matrix3 1 2 3 4 5 6 7 8 9) (V 0 1 0) = V 2 5 8 /\ mget (new_matrix3 1 2 3 4 5 6 7 8 9) 1 2 = 6 /\
    new_matrix3 1 2 3 4 5 6 7 8 9 <> new_matrix3 1 4 7 2 5 8 3 6 9)%R.
 Proof. exact new_matrix3_example. Qed.
+Example C20_nonvacuous_generated_hypotheses :
+  finm (FM 1 2 3 4 5 6 7 8 9) /\ finv (vt (1, 2, 3)%float) /\ ibv K (vt (3, -7, 3)%float) (ZV 3 (-7) 3).
+Proof. exact gen_hypotheses_inhabited. Qed.
